@@ -132,6 +132,7 @@ def step (s : St) (ws : List String) : St × String :=
       else if n = 0 then (s, "bad-op")
       else ({ s with ompDisabled := false, maxThreads := n }, s!"ok {n}")
     | none => (s, "bad-op")
+  | ["ompstat"] => (s, "O")
   | ["tape"] => (s, showTape s)
   | ["val", k] => match k.toNat?.bind s.var? with
     | some x => (s, s!"v {x.val}")
